@@ -1,7 +1,7 @@
 #!/bin/bash
 # runs every registered check at the given tier (default quick) and prints one line each
 tier=${1:-quick}
-cd /verif
+cd "$(dirname "$0")/.."
 for id in $(python3 -c "import json;print(' '.join(c['property_id'] for c in json.load(open('MANIFEST.json'))['checks']))"); do
   start=$(date +%s)
   out=$(./check $id $tier 2>&1); rc=$?
